@@ -241,12 +241,23 @@ def max_occurrence_rule(prog: Program, rep, RID: str):
 
     def nodes_of_path(container: ast.AST) -> bool:
         t = norm(container).replace(" ", "")
-        return t in (P, f"set({P})", f"list({P})", f"frozenset({P})")
+        if t in (P, f"set({P})", f"list({P})", f"frozenset({P})", f"dict.fromkeys({P})"):
+            return True
+        # {n for n in P} / {n: i for i, n in enumerate(P)}: a collection keyed by the *nodes* of the path
+        if isinstance(container, (ast.SetComp, ast.ListComp, ast.DictComp)) and len(container.generators) == 1:
+            g = container.generators[0]
+            keyexpr = norm(container.key if isinstance(container, ast.DictComp) else container.elt)
+            if norm(g.iter) == P and norm(g.target) == keyexpr:
+                return True
+            if isinstance(g.iter, ast.Call) and dotted(g.iter.func) == "enumerate" and g.iter.args and norm(g.iter.args[0]) == P and \
+                    isinstance(g.target, ast.Tuple) and len(g.target.elts) == 2 and norm(g.target.elts[1]) == keyexpr:
+                return True
+        return False
     k1 = key + ":edge-membership"
     if len(mems) == 1 and norm(mems[0].left) in (ev, ev.strip("()")) and pairs_of_path(mems[0].comparators[0]) and \
             norm(cond_s) == norm(mems[0]):
         rep.ok(RID, k1, "a constraint edge counts iff it is one of the consecutive node pairs of the path", f.loc(lp), sample={"test": norm(cond_s)[:120]})
-    elif mems and all(nodes_of_path(m.comparators[0]) for m in mems):
+    elif mems and all(nodes_of_path(m.comparators[0]) for m in mems) and all(norm(m.left) != ev for m in mems):
         rep.violation(RID, k1, f"a constraint edge is counted when `{norm(cond)[:90]}` - its endpoints lie on the path - not when the edge itself is an edge of the path: "
                       "a path going around a shortcut edge is taken to cover it, so a greedy decomposition that violates a subpath constraint is accepted", f.loc(lp))
     else:
